@@ -12,7 +12,7 @@ CLAIMED = {
 }
 CLAIMED['C02'] = dict(design='2/C02', text='Every Add/Sub/Mul/Neg impl body that the MIR defines for the 7x7 operand kinds (f64, &DecisionVariable, &Parameter, Linear, '
     'Quadratic, Polynomial, Function; macro-generated impls included) is executed symbolically: operands with <=2 non-constant terms, every id '
-    'pattern over {0,1,2}, symbolic real coefficients; z3 proves coefficient-wise agreement of the result message with the exact polynomial '
+    'pattern over {0,1,2} (constants split over two monomials included), plus wide operands (6-8 terms, 4 for products) over concrete unsorted id patterns with repeats, symbolic real coefficients; BTreeMap keys are ordered and merged through the crate\'s own Ord impls; z3 proves coefficient-wise agreement of the result message with the exact polynomial '
     'sum/difference/product within the documented epsilon-dropping allowance, that no term is lost by the result type, and that the term '
     'iterators yield sorted ids summing to the polynomial.',
     note='R-model; coefficient domain 0 or magnitude in [2^-10,2^10] (positive only for the larger operand pairs, recorded per harness); '
@@ -28,7 +28,7 @@ CLAIMED['C03'] = dict(design='2/C03', text='partial_evaluate of Function/Linear/
     'are fixed ids that occurred, fixed values are recorded on the decision variables, two-step fixing equals one-step fixing.',
     note='R-model with magnitudes in {0} u [2^-6,2^6]; equality up to the documented epsilon-dropping allowance; in-bound states; library models trusted and validated natively each run.')
 CLAIMED['C04'] = dict(design='2/C04', text='Function::substitute is executed symbolically for every small f (<=3 monomials, degree<=2, ids over {0,1,2}) and replacement maps '
-    'with 1..2 entries of degree<=2 that may mention replaced variables; z3 proves coefficient-wise agreement with the driver-built simultaneous composition. '
+    'with 1..2 entries of degree<=2 that may mention replaced variables (with two entries each replacement may mention the other key, and both iteration orders of the replacement map are explored); z3 proves coefficient-wise agreement with the driver-built simultaneous composition. '
     'eval_dependencies is executed for every directed dependency graph on <=3 (quick) / 4 (thorough) dependent variables, every iteration order of the dependency '
     'HashMap and base variable present/absent: Ok with the right values iff acyclic and grounded, Err otherwise, always within the step budget. '
     'Instance::substitute (one step and a two-step chain) followed by evaluate is compared with the original evaluated at the implied full assignment.',
@@ -74,7 +74,7 @@ CLAIMED['C08'] = dict(design='2/C08', text='Instance::validate and ParametricIns
     'unbounded, [0,1] for binaries) and fixed values.',
     note='R-model for bounds; two defects found: unspecified bound read as [0,0] (repaired by a fix: commit) and undefined variable ids inside functions accepted by the typed conversion '
     '(recorded in known_findings.json, printed as KNOWN-FINDING); BoundError::check is additionally decided under true IEEE-754 by the Kani harness bound_new_accepts_exactly_valid (C16 run).')
-CLAIMED['C12'] = dict(design='2/C12', text='Instance::log_encode is executed symbolically with bounds on the half-integer grid k/2, |k|<=2^21 (symbolic integers), every kind, missing / infinite / NaN '
+CLAIMED['C12'] = dict(design='2/C12', text='Instance::log_encode is executed symbolically with bounds on the half-integer grid k/2, |k|<=2^21 (symbolic integers), and with endpoints a hair (2^-30) above / below an integer (symbolic integer part in [-12,12]), every kind, missing / infinite / NaN '
     'bounds and an unknown id; ceil(log2(.)) is modelled by bracketing (one path per bit count 1..21). z3 proves: registered binaries (fresh consecutive ids, kind binary, [0,1], tagged), '
     'constant = ceil(l), coefficients sum to the width and their subset sums are exactly the integers of the range (directly for < 64 values, complete-sequence criterion above), '
     'a single-integer range gives a constant, every error condition gives Err within the step budget.',
@@ -96,15 +96,15 @@ CLAIMED['C16'] = dict(design='2/C16', engine='kani+mirsym', technique='Kani/CBMC
     '(4 function shapes) against lcm(denominators)/gcd(numerators) — bounded exhaustive exploration, labelled as such in evidence; approximate_float is a binary64 port validated natively each run; '
     'rounding monotonicity outside the R-model half.')
 CLAIMED['C17'] = dict(design='2/C17', text='The MPS parser state machine (read_header, read_row_field, read_column_field, read_rhs_field, read_range_field, read_bound_field, finish, '
-    'from_lines) and mps::convert::* are executed from MIR on files rendered by an independent writer from abstract models (2 columns x 2 rows, every row type, 14 bound scenarios, '
+    'from_lines) and mps::convert::* are executed from MIR on files rendered by an independent writer from abstract models (2 columns x 2 rows; thorough tier also 3 x 3; 3- and 5-field COLUMNS / RHS / RANGES lines; every row type, 14 bound scenarios, '
     'positive/negative ranges, objective constant, sense, integer markers, several layouts); all numbers are symbolic reals carried through the text as tokens. z3 proves the imported '
     'instance equals the model: sense, objective incl. constant, one <=0 / =0 constraint per row with the right signs (two for ranged rows), per-column domain, names; and that each '
     'injected fault (undeclared row in COLUMNS/RHS/RANGES, unknown row/bound/marker/sense keyword, unparsable number) is reported as an error.',
-    note='Lexing primitives (lines, split_whitespace, trim, f64::from_str) are modelled on concrete text, not executed; gzip and byte decoding outside; models larger than 2x2 outside (property: 6x5); '
+    note='Lexing primitives (lines, split_whitespace, trim, f64::from_str) are modelled on concrete text, not executed; gzip and byte decoding outside; models larger than 2x2 (quick) / 3x3 (thorough) outside (property: 6x5); '
     'four defects found and repaired by fix: commits (FR ignored, objective constant only from row OBJ, UP 0 boundary, RHS for undeclared row), see known_findings.json.')
 CLAIMED['C18'] = dict(design='2/C18', text='mps::to_mps::write_mps is executed from MIR into a text buffer (format templates decoded from the MIR constants), the text is split into lines '
     'and fed to the real parser and converter (C17 pipeline): for linear instances with 3 non-contiguous variable ids, every kind, bounds absent/finite/half-infinite/infinite/negative, '
-    '0-2 constraints of either kind incl. constant-only, either sense and symbolic coefficients (explicit zeros as solver cases), z3 proves same sense, same objective and constraint '
+    '0-2 constraints of either kind incl. constant-only, either sense and symbolic coefficients (explicit zeros as solver cases), linear functions stored in the linear, quadratic (no / zero entries) or polynomial (degree <= 1) arm, z3 proves same sense, same objective and constraint '
     'denotations and equality kinds under the same ids and the same effective domain for every used variable; repeated ids inside one function; nonlinear objective/constraint refused naming the offender.',
     note='f64 Display/FromStr round trip assumed (numbers travel as tokens); lexing modelled; two defects found and repaired by fix: commits (no bounds written for variables without bound; '
     'repeated ids written as duplicate COLUMNS entries).')
@@ -113,7 +113,7 @@ CLAIMED['C19'] = dict(design='2/C19', text='QplibFile::from_lines (FileCursor he
     'all 120 (thorough) problem-type codes with symbolic numbers: z3 proves objective = 1/2 x\'Q0x + b0\'x + q0 (symmetric Q from its lower triangle, default and non-default b0), sense, '
     'variable kinds/bounds/names (magnitudes at the infinity value = unbounded), one <=0 constraint per finite side with the right signs; malformed type/sense/variable-type codes, '
     'non-numbers, premature EOF and oversized counts are reported as errors.',
-    note='Lexing modelled as in C17; 2 variables x 2 constraints (property: 5 x 4); one defect repaired by a fix: commit (diagonal of Q not halved); three panics on malformed index/value '
+    note='Lexing modelled as in C17; 2 variables x 2 constraints, thorough tier also 4 x 3 for six codes (property: 5 x 4); one defect repaired by a fix: commit (diagonal of Q not halved); three panics on malformed index/value '
     'tokens are recorded as known findings and printed as KNOWN-FINDING.')
 CLAIMED['C07'] = dict(design='2/C07', text='The prost-derive output of all 31 message types (encode_raw, merge_field, clear, Default, the oneof encode/merge and their closures) and of the 5 enum types '
     '(try_from, is_valid, as_str_name, from_str_name, typed getters/setters) is executed from the MIR of rust/ommx with prost::encoding::* modelled as emitting/consuming abstract wire records '
